@@ -247,8 +247,12 @@ def validation(chk, dprog, cfg):
         vb, ctp = found
         root = dprog.body(dprog.fns[vb.path].get("root") or vb.path) if dprog.fns[vb.path].get("kind") == "Closure" else vb
         errs = [1 for p_ in cd.closure_tree(dprog, root.path) for bb, t in dprog.body(p_).calls() if dprog.body(p_).callee_name(t).endswith("syn::error::Error::new")]
-        chk.expect(len(ctp) == 1 and bool(errs), "R20.3", "unbound-parameter-check", vb.where(),
-                   "contains_type_param consulted in %s: %d time(s); a syn::Error is constructed there: %s" % (mir.strip_generics(vb.path).split("::")[-1], len(ctp), bool(errs)), cfg)
+        if len(ctp) == 1 and not errs:
+            chk.abstain("R20.3", "unbound-parameter-check", vb.where(), "contains_type_param is consulted once but the error value is built elsewhere (a private error type converted later)", cfg,
+                        decided_by="witnesses c20_bounds_missing_param, c20_bounds_later_param_uncovered*, c20_bounds_projection_only (R20.4)")
+        else:
+            chk.expect(len(ctp) == 1 and bool(errs), "R20.3", "unbound-parameter-check", vb.where(),
+                       "contains_type_param consulted in %s: %d time(s); a syn::Error is constructed there: %s" % (mir.strip_generics(vb.path).split("::")[-1], len(ctp), bool(errs)), cfg)
     # a predicate bounds the parameter only if its bounded type IS the parameter (`T: ..`), not a path rooted at it (`T::X: ..`)
     cb = dprog.body(dprog.fn("attr::BoundsAttr::contains_type_param"))
     names = set()
